@@ -41,6 +41,8 @@ pub enum BitOp {
     Bits(u64, usize),
     Unary(u64),
     Gamma(u64),
+    /// gamma read through the decoding table (read mode; written like Gamma)
+    GammaTable(u64),
 }
 
 #[derive(Clone, Debug, Serialize, Deserialize)]
@@ -485,7 +487,7 @@ fn bit_write(s: &S11, e: En, ops: &[BitOp], ctx: &mut Ctx) {
         let r = guard(|| match op {
             BitOp::Bits(v, n) => w.write_bits(*v, *n),
             BitOp::Unary(x) => w.write_unary(*x),
-            BitOp::Gamma(x) => w.write_code(Code::Gamma, 0, *x),
+            BitOp::Gamma(x) | BitOp::GammaTable(x) => w.write_code(Code::Gamma, 0, *x),
         });
         let r = match r {
             Ok(r) => r,
@@ -496,7 +498,7 @@ fn bit_write(s: &S11, e: En, ops: &[BitOp], ctx: &mut Ctx) {
             Ok(_) => match op {
                 BitOp::Bits(v, n) => model.push_bits(e, *v, *n),
                 BitOp::Unary(x) => model.push_unary(*x),
-                BitOp::Gamma(x) => {
+                BitOp::Gamma(x) | BitOp::GammaTable(x) => {
                     let l = 63 - (x + 1).leading_zeros() as usize;
                     model.push_unary(l as u64);
                     model.push_bits(e, x + 1, l);
@@ -559,7 +561,7 @@ fn bit_read(s: &S11, e: En, buffered_reader: bool, ops: &[BitOp], ctx: &mut Ctx)
         match op {
             BitOp::Bits(v, n) => model.push_bits(e, *v, *n),
             BitOp::Unary(x) => model.push_unary(*x),
-            BitOp::Gamma(x) => {
+            BitOp::Gamma(x) | BitOp::GammaTable(x) => {
                 let l = 63 - (x + 1).leading_zeros() as usize;
                 model.push_unary(l as u64);
                 model.push_bits(e, x + 1, l);
@@ -587,7 +589,11 @@ fn bit_read(s: &S11, e: En, buffered_reader: bool, ops: &[BitOp], ctx: &mut Ctx)
     };
     let (mut r, h) = AnyReader::new(e, kind, &rb, &bytes);
     let class = fault_class(&s.plan);
-    ctx.step(tags(s, "bit_read"));
+    let uses_tables = kind != RdKind::B8 && ops.iter().any(|o| matches!(o, BitOp::GammaTable(_)));
+    let mut t = tags(s, "bit_read");
+    t.push(format!("table_reads={}", if uses_tables { "yes" } else { "no" }));
+    ctx.step(t);
+    ctx.probe_if(uses_tables && class == "faulting", "c11.table_reads_under_hard_faults");
     let mut pos = 0usize;
     for (i, op) in ops.iter().enumerate() {
         ctx.ops += 1;
@@ -600,6 +606,12 @@ fn bit_read(s: &S11, e: En, buffered_reader: bool, ops: &[BitOp], ctx: &mut Ctx)
             BitOp::Gamma(x) => {
                 let l = 63 - (x + 1).leading_zeros() as usize;
                 (guard(|| r.read_code(Code::Gamma, 0)), *x, 2 * l + 1)
+            }
+            BitOp::GammaTable(x) => {
+                let l = 63 - (x + 1).leading_zeros() as usize;
+                // u8 readers cannot serve the table (diagnosed): plain read there
+                let tab = if kind == RdKind::B8 { 0 } else { 1 };
+                (guard(|| r.read_code(Code::Gamma, tab)), *x, 2 * l + 1)
             }
         };
         let res = match res {
@@ -671,12 +683,23 @@ fn gen_plan(rng: &mut Rng, index: u64, nbytes: usize, ncalls: usize) -> FaultPla
         }
     };
     plan.at.push((sys_call, first));
-    // swarm part: extra benign faults at a per-run rate 0..30 %
-    let rate = rng.below(31);
-    for c in 0..(ncalls * 3) {
-        if c != sys_call && rng.below(100) < rate {
-            let lim = rng.usize_range(1, nbytes.max(2) - 1).max(1);
-            plan.at.push((c, benign(rng, lim)));
+    // swarm part: extra benign faults at a per-run rate 0..30 %; one run in 16 is a
+    // "trickle" device instead: (almost) every call transfers a single byte or is
+    // interrupted, so that assembling one word takes dozens of calls
+    if rng.chance(1, 16) {
+        let pint = rng.range(30, 75);
+        for c in 0..(ncalls * (2 * nbytes + 4) * 3) {
+            if c != sys_call {
+                plan.at.push((c, if rng.below(100) < pint { Fault::Interrupted } else { Fault::Short(1) }));
+            }
+        }
+    } else {
+        let rate = rng.below(31);
+        for c in 0..(ncalls * 3) {
+            if c != sys_call && rng.below(100) < rate {
+                let lim = rng.usize_range(1, nbytes.max(2) - 1).max(1);
+                plan.at.push((c, benign(rng, lim)));
+            }
         }
     }
     if class == 2 && rng.chance(1, 6) {
@@ -741,6 +764,13 @@ impl Family for C11 {
             if which == 8 {
                 Mode::BitWrite { e, ops }
             } else {
+                let ops: Vec<BitOp> = ops
+                    .into_iter()
+                    .map(|o| match o {
+                        BitOp::Gamma(x) if rng.chance(1, 2) => BitOp::GammaTable(x.min(rng.below(400))),
+                        o => o,
+                    })
+                    .collect();
                 Mode::BitRead {
                     e,
                     buffered_reader: word != Wd::U128 && rng.chance(3, 4),
